@@ -556,5 +556,6 @@ CHECKS["C33"] = {
     "outside": "manager Run / synchronizePipelines / Stop (restart of the manager is represented by stop + start from the persisted position); several pipelines sharing an exporter; drivers' own batching; schedules in which a goroutine of the package is preempted elsewhere than at a blocking operation or a storage / exporter call; liveness beyond the explored bounds (a path that exceeds the decision bound is inconclusive); native replay of arbitrary schedules (real goroutines cannot be stepped: the recorded schedule is replayed by a dedicated native harness that forces it with gates)",
     "assumptions": COMMON_ASSUME + ["timers only delay: a time.After channel with a positive duration delivers when every logical thread is blocked", "logging is a no-op"],
     "units": [unit("./internal/replication", ["replication/c33.go"], "^Harness_C33_", QT, flags={"labels": "^(C33:|no-panic)", "max-decisions": 6000, "max-paths": 100000},
-                   reach=["end"], validate_witnesses=0, replay_by_label={"^C33:persisted-position-never-ahead-of-acknowledged$": "Replay_C33_stale_store_after_reset"})],
+                   reach=["end"], validate_witnesses=0, replay_by_label={"_reset_||^C33:persisted-position-never-ahead-of-acknowledged$": "Replay_C33_stale_store_after_reset",
+                                    "_(stop_start|deliver)_||^C33:": "Replay_C33_stop_during_push_retry"})],
 }
